@@ -81,6 +81,12 @@ static tree_node_t *mknode(fstree_t *fs, tree_node_t *parent, const char *name,
 	size_t size;
 	char *ptr;
 
+	/* owner and group are 32 bit values on disk */
+	if (ent->uid > 0x0FFFFFFFFUL || ent->gid > 0x0FFFFFFFFUL) {
+		errno = EOVERFLOW;
+		return NULL;
+	}
+
 	size = sizeof(tree_node_t) + name_len + 1;
 	if (extra != NULL)
 		size += strlen(extra) + 1;
